@@ -73,7 +73,7 @@ def run_shard(desc, R, tier):
     else:
         _, N, cplx, half = desc
         fam = (A.gen_cplx(N) + A.tones_cplx(N)) if cplx else (A.gen_real(N) + A.tones_real(N) + A.pcm(N) + A.pcm64(N))
-        fam = fam + A.scaled(fam) + A.strided(fam) + A.extreme(fam)
+        fam = fam + A.scaled(fam) + A.strided(fam) + A.extreme(fam) + A.shaped(N, cplx) + A.near_noiseless(N, cplx)
         for i, (name, x) in enumerate(fam):
             if i % 2 == half:
                 eval_point({'x': x, 'name': name}, R)
@@ -97,7 +97,7 @@ def eval_point(pt, R):
     # largest order for which the reference recursion is non-degenerate
     pgood = 0
     for m in range(1, len(kref) + 1):
-        if dens[m - 1] > 1e-6 * N * power and rhoref[m] > 1e-9 * power:
+        if dens[m - 1] > 3e-9 * N * power and rhoref[m] > 1e-9 * power:      # the stage-minimiser tolerance below grows as 1e-11 N power / den (<= 3e-3 at this bound)
             pgood = m
         else:
             break
